@@ -113,6 +113,14 @@ def run(ctx):
             ctx.ob("C09.R1d", inst, ok, fn.loc, "nesting counter must be incremented by one before the outermost test")
         # -------------------------------------------------------------- R2 tick
         rmws = [a for a in gv if a.op == "rmw"]
+        others = [a for a in gv if a.op in ("cas", "store")]
+        if fn.name == "tick" or rmws or others:
+            if fn.name == "tick" or others:
+                ctx.ob("C09.R2d", inst, bool(rmws) and not others, (others[0].node.where if others else fn.loc),
+                       "the global epoch must be advanced by an unconditional read-modify-write (fetch_add) of the caller "
+                       "itself: with a compare-exchange (or store) the value a retiring thread gets back can have been "
+                       "produced by another thread's tick while the caller's unlink was not yet visible, so it does not "
+                       "order the unlink before later region entries", site="%s@advance" % inst)
         if rmws:
             n_tick += 1
             sc = [f.node for f in fences if f.order == A.SEQ_CST]
@@ -139,7 +147,8 @@ def run(ctx):
             ctx.ob("C09.R2c", inst, ok, fn.loc, "tick must return the new epoch (old value + 1)")
     ctx.floor("C09.R1", n_enter, 1, "region-entry stores")
     ctx.floor("C09.R4", n_leave, 1, "region-exit stores")
-    ctx.floor("C09.R2", n_tick, 1, "tick functions")
+    if not any(o["rule"] == "C09.R2d" and not o["ok"] for o in ctx.obligations):
+        ctx.floor("C09.R2", n_tick, 1, "tick functions")
 
     # ---------------------------------------------------------------- R3 scan
     scans = [f for f in fns if f.name == "low_water_mark"]
